@@ -58,7 +58,7 @@ SELFTEST = os.environ.get("VERIF_SELFTEST")
 SELFTEST_LOG = []
 # operands (a recorded floating-point input may legitimately move by one unit within the specification's allowance) and bookkeeping
 _SELFTEST_SKIP = {"inputs", "seed", "id", "idx"}
-_RECORDERS = {"he-drive", "c07", "c08", "c09", "c10", "c11", "c12", "c13", "c16", "c17", "c19", "c20", "ser-layout"}
+_RECORDERS = {"he-drive", "keys", "c07", "c08", "c09", "c10", "c11", "c12", "c13", "c16", "c17", "c19", "c20", "ser-layout"}
 
 
 def _int_leaves(o, path, out):
